@@ -133,6 +133,34 @@ func c09Create(fs *Facts, f *File) {
 }
 
 func c09Recheck(fs *Facts, f *File) {
+	// repaired shape: every Increment body (and PatchFields) obtains object + guard from a helper that, after
+	// StartTreasureGuard, compares beaconKey.Get(key) with its object inside a retry loop and releases on mismatch
+	helper := f.Func("swamp", "lockCurrentTreasure")
+	helperOK := false
+	if helper != nil {
+		starts := f.CallsSuffix(helper, ".StartTreasureGuard")
+		rels := f.CallsSuffix(helper, ".ReleaseTreasureGuard")
+		loop, cmp := false, false
+		ast.Inspect(helper, func(x ast.Node) bool {
+			switch v := x.(type) {
+			case *ast.ForStmt:
+				loop = true
+			case *ast.BinaryExpr:
+				t := f.Str(v)
+				if len(starts) == 1 && v.Pos() > starts[0].End() && strings.Contains(t, "treasureObj") && (v.Op.String() == "==" || v.Op.String() == "!=") {
+					cmp = true
+				}
+			}
+			return true
+		})
+		gets := 0
+		for _, c := range f.Calls(helper, "s.beaconKey.Get") {
+			if len(starts) == 1 && c.Pos() > starts[0].End() {
+				gets++
+			}
+		}
+		helperOK = len(starts) == 1 && len(rels) >= 1 && loop && cmp && gets >= 1
+	}
 	yes, no := 0, 0
 	where := c09Swamp
 	for _, n := range c09Increments {
@@ -141,31 +169,44 @@ func c09Recheck(fs *Facts, f *File) {
 			fs.Tri("rechecksObjectUnderGuard", Unknown, c09Swamp)
 			return
 		}
+		viaHelper := len(f.Calls(fn, "s.lockCurrentTreasure")) == 1 && len(f.CallsSuffix(fn, ".StartTreasureGuard")) == 0
 		starts := f.CallsSuffix(fn, ".StartTreasureGuard")
-		if len(starts) != 1 {
+		found := viaHelper && helperOK
+		if !viaHelper && len(starts) == 1 {
+			ast.Inspect(fn, func(x ast.Node) bool {
+				if b, ok := x.(*ast.BinaryExpr); ok && b.Pos() > starts[0].End() {
+					t := f.Str(b)
+					if strings.Contains(t, "s.beaconKey.Get(") && strings.Contains(t, "treasureObj") && (b.Op.String() == "!=" || b.Op.String() == "==") {
+						found = true
+					}
+				}
+				return true
+			})
+		} else if !viaHelper {
 			fs.Tri("rechecksObjectUnderGuard", Unknown, c09Swamp+":"+itoa(f.Line(fn)))
 			return
 		}
-		found := false
-		ast.Inspect(fn, func(x ast.Node) bool {
-			if b, ok := x.(*ast.BinaryExpr); ok && b.Pos() > starts[0].End() {
-				t := f.Str(b)
-				if strings.Contains(t, "s.beaconKey.Get(") && strings.Contains(t, "treasureObj") && (b.Op.String() == "!=" || b.Op.String() == "==") {
-					found = true
-				}
-			}
-			return true
-		})
 		if found {
 			yes++
 		} else {
 			no++
-			where = c09Swamp + ":" + itoa(f.Line(starts[0]))
+			where = c09Swamp + ":" + itoa(f.Line(fn))
+		}
+	}
+	// PatchFields must follow the same route
+	if pf, err := Load(c09Patch); err == nil {
+		if fn := pf.Func("swamp", "PatchFields"); fn != nil {
+			if len(pf.Calls(fn, "s.lockCurrentTreasure")) == 1 && helperOK {
+				yes++
+			} else {
+				no++
+				where = c09Patch + ":" + itoa(pf.Line(fn))
+			}
 		}
 	}
 	switch {
 	case no == 0:
-		fs.Tri("rechecksObjectUnderGuard", Yes, where)
+		fs.Tri("rechecksObjectUnderGuard", Yes, c09Swamp+":"+itoa(f.Line(helper)))
 	case yes == 0:
 		fs.Tri("rechecksObjectUnderGuard", No, where)
 	default:
@@ -208,18 +249,36 @@ func c09BodyShape(f *File, fn *ast.FuncDecl) (string, int) {
 		return "unknown", 0
 	}
 	starts := f.CallsSuffix(fn, ".StartTreasureGuard")
+	// object + guard obtained from the re-checking helper: `obj, id, _ := s.lockCurrentTreasure(key)`
+	viaHelper := map[*ast.CallExpr]*ast.Ident{}
+	ast.Inspect(fn, func(x ast.Node) bool {
+		if as, ok := x.(*ast.AssignStmt); ok && len(as.Rhs) == 1 && len(as.Lhs) >= 2 {
+			if c, ok := as.Rhs[0].(*ast.CallExpr); ok && f.Str(c.Fun) == "s.lockCurrentTreasure" {
+				if id, ok := as.Lhs[0].(*ast.Ident); ok {
+					viaHelper[c] = id
+					starts = append(starts, c)
+				}
+			}
+		}
+		return true
+	})
 	if len(starts) == 0 {
 		return "unknown", f.Line(fn)
 	}
 	res, line := "guarded", f.Line(fn)
 	for _, st := range starts {
-		se, ok := st.Fun.(*ast.SelectorExpr)
-		if !ok {
-			return "unknown", f.Line(st)
-		}
-		obj, ok := se.X.(*ast.Ident)
-		if !ok {
-			return "unknown", f.Line(st)
+		var obj *ast.Ident
+		if id, ok := viaHelper[st]; ok {
+			obj = id
+		} else {
+			se, ok := st.Fun.(*ast.SelectorExpr)
+			if !ok {
+				return "unknown", f.Line(st)
+			}
+			obj, ok = se.X.(*ast.Ident)
+			if !ok {
+				return "unknown", f.Line(st)
+			}
 		}
 		scope := c09Scope(fn, st)
 		var accesses []*ast.CallExpr
